@@ -95,9 +95,9 @@ func newSess(sc *SessScript, o *sim.Outcome) *Sess {
 	w := sim.NewWorld(
 		sim.PartyOpts{Seed: sc.Cfg.SeedA, Pol: pa, KeyI: sc.Cfg.KeyA, Frag: sc.Cfg.FragA, NoErrH: sc.Cfg.NoErrH},
 		sim.PartyOpts{Seed: sc.Cfg.SeedB, Pol: pb, KeyI: sc.Cfg.KeyB, Frag: sc.Cfg.FragB, NoErrH: sc.Cfg.NoErrH})
-	s := &Sess{Cfg: sc.Cfg, W: w, Obs: ref.NewObserver(2), o: o}
-	s.Obs.Versions = []int{versionsOf(pa), versionsOf(pb)}
-	s.Obs.SendsWS = []bool{pa&sim.PolSendWS != 0, pb&sim.PolSendWS != 0}
+	s := &Sess{Cfg: sc.Cfg, W: w, Obs: ref.NewObserver(3), o: o}
+	s.Obs.Versions = []int{versionsOf(pa), versionsOf(pb), 3}
+	s.Obs.SendsWS = []bool{pa&sim.PolSendWS != 0, pb&sim.PolSendWS != 0, false}
 	for i := 0; i < 2; i++ {
 		k, err := ref.ParseDSAPrivate(sim.PoolKeyBytes(w.P[i].KeyI))
 		if err != nil {
